@@ -200,7 +200,57 @@ fn main() {{
     return src, f"{tot * (tot + 1) // 2}\n", {"kind": "join", "threads": t, "n": n}
 
 
-KINDS = [counter, permits, queue, atomics, join_vis]
+def gates(rng):
+    """many condition objects with queued threads at once: every worker parks on its OWN mutex/condition pair; when all are
+    provably queued the main thread forces a collection (the wait table is keyed by object addresses, which a moving
+    collection rewrites) and then opens every gate with notify_all / notify_one"""
+    n = rng.randint(8, 13); rounds = rng.randint(2, 3)
+    notify = rng.choice(["notify_all", "notify_all", "notify_one"])
+    collect = rng.choice(["std::force_minor_collect();", "std::force_collect();", "std::force_minor_collect(); std::force_collect();"])
+    src = f"""
+class Gate {{ mtx: std::thread::Mutex, cond: std::thread::Condition, queued: Bool, open: Bool, passed: Bool }}
+fn worker(gate: Gate) {{
+    gate.mtx.lock[()](|| {{
+        gate.queued = true;
+        while !gate.open {{ gate.cond.wait(gate.mtx); }}
+        gate.passed = true;
+    }});
+}}
+fn main() {{
+    let mut round = 0;
+    let mut passed = 0;
+    while round < {rounds} {{
+        let gates = Vec[Gate]::new();
+        let threads = Vec[std::thread::Thread]::new();
+        let mut i = 0;
+        while i < {n} {{
+            let gate = Gate(mtx = std::thread::Mutex::new(), cond = std::thread::Condition::new(), queued = false, open = false, passed = false);
+            gates.push(gate);
+            threads.push(std::thread::spawn(|| {{ worker(gate); }}));
+            i = i + 1;
+        }}
+        // a worker sets `queued` under its mutex and gives the mutex up only inside wait(), after it is on the wait list
+        for gate in gates {{
+            let mut queued = false;
+            while !queued {{ queued = gate.mtx.lock[Bool](||: Bool {{ gate.queued }}); }}
+        }}
+        let junk = Array[Int64]::zero(round * 3 + 1);
+        {collect}
+        for gate in gates {{
+            gate.mtx.lock[()](|| {{ gate.open = true; }});
+            gate.cond.{notify}();
+        }}
+        for thread in threads {{ thread.join(); }}
+        for gate in gates {{ if gate.passed {{ passed = passed + 1; }} }}
+        round = round + 1 + junk.size() - junk.size();
+    }}
+    println("${{passed}}");
+}}
+"""
+    return src, f"{n * rounds}\n", {"kind": "gates", "workers": n, "rounds": rounds, "notify": notify}
+
+
+KINDS = [counter, permits, queue, atomics, join_vis, gates]
 
 
 def program(seed, kind=None):
